@@ -33,6 +33,7 @@ def run(ctx, chk):
     r3(ctx, chk)
     r4(ctx, chk)
     r5(ctx, chk)
+    first_match_rule(ctx, chk, "C11.R8")
     # R7: which locale reads the string (and its zone word) must not depend on earlier calls
     from .c13 import previous_locales_flag_rule
     previous_locales_flag_rule(ctx, chk, "C11.R7")
@@ -360,3 +361,37 @@ def thorough(ctx, chk):
     chk.obligations.append((rule, "%d body x spelling probes, %d mismatches" % (n, bad), bad == 0, ""))
     chk.nontrivial.add((rule, "probes"))
     chk.extra["thorough_probes"] = n
+
+
+def first_match_rule(ctx, chk, rule):
+    """the timezone table is ordered (numeric-offset spellings before the abbreviations that are their prefixes: 'UTC+05:45'
+    also matches the entry 'UTC'): every scan of `_tz_offsets` must stop at the FIRST matching entry - the body of the
+    `if <entry regex>.search(..)` inside the loop leaves the loop (return / break) on every path"""
+    from ..core.cfg import CFG
+    n = 0
+    for f in ctx.ix.funcs.values():
+        if not f.module.rel.startswith("dateparser/") or f.module.rel.startswith("dateparser/data/"):
+            continue
+        for lp in [x for x in iter_own_nodes(f.node) if isinstance(x, ast.For) and ast.unparse(x.iter).split(".")[-1] == "_tz_offsets"]:
+            tests = [x for x in ast.walk(lp) if isinstance(x, ast.If) and ".search(" in ast.unparse(x.test) or
+                     (isinstance(x, ast.If) and isinstance(x.test, ast.Name) and any(
+                         isinstance(a, ast.Assign) and ast.unparse(a.targets[0]) == x.test.id and ".search(" in ast.unparse(a.value) for a in ast.walk(lp)))]
+            for t in tests:
+                n += 1
+                # every path through the body ends in return / break / raise: the last statement of each arm
+                def leaves(stmts):
+                    if not stmts:
+                        return False
+                    last = stmts[-1]
+                    if isinstance(last, (ast.Return, ast.Break, ast.Raise)):
+                        return True
+                    if isinstance(last, ast.If):
+                        return leaves(last.body) and leaves(last.orelse)
+                    return False
+                ok = leaves(t.body)
+                chk.ob(rule, "%s: the scan of the timezone table stops at the first matching entry" % f.qual, ok,
+                       "the loop goes on after a match: a later entry (an abbreviation that is a prefix of the spelling, e.g. 'UTC' for "
+                       "'UTC+05:45') replaces the earlier, more specific one",
+                       key={"function": f.key, "construct": "first match leaves the loop"}, file=f.file, function=f.qual, line=t.lineno,
+                       text=" ".join(ast.unparse(t.test).split())[:80])
+    chk.floor(rule, n, 3, "scans of the ordered timezone table")
